@@ -96,7 +96,7 @@ def build(tier, seed):
         width = 2
         height = sum(P)
     pages = [NS(data=NS(height=h, width=2, tag=None)) for h in P]
-    UnifiedRTFEncoder._apply_data_post_processing(NS(), pages, Rec(), NS(group_by=None))
+    UnifiedRTFEncoder._apply_data_post_processing(NS.of(UnifiedRTFEncoder), pages, Rec(), NS(group_by=None))
     off = 0
     ok = len(calls) == len(P)
     for i, h in enumerate(P):
@@ -138,7 +138,7 @@ def build(tier, seed):
             body=r'''
     K = [%s]
     df = FakeFrame({"g": K, "v": list(range(%d))})
-    got = PageByStrategy._detect_group_boundaries(NS(), df, ["g"], start, end)
+    got = PageByStrategy._detect_group_boundaries(NS.of(PageByStrategy), df, ["g"], start, end)
     exp = []
     for r in range(start, end):
         if K[r] != K[r + 1]:
